@@ -145,6 +145,7 @@ def run(repo, rep, tier):
 
     mgr = repo.cls(SM, 'WBEMSubscriptionManager')
     recursion_forwards_parameters(repo, rep)
+    owned_only_after_create(repo, rep)
 
     # ---- R1 ---------------------------------------------------------------
     sites = pattern_sites(repo, SM)
@@ -669,3 +670,67 @@ def recursion_forwards_parameters(repo, rep):
     if r8.sites < 3:
         raise AnalysisError('C18.R8: only %d self-recursive calls found'
                             % r8.sites)
+
+
+def owned_only_after_create(repo, rep):
+    """C18.R9: in the _create_* methods an instance enters an owned list
+    only on paths on which this manager's CreateInstance has returned.  An
+    instance that already exists in the server but is not in the owned list
+    is by construction not owned by this manager (it is permanent, or owned
+    by a manager with another ID); adopting it (e.g. by swallowing
+    CIM_ERR_ALREADY_EXISTS) makes remove_server() delete an instance the
+    manager never created."""
+    from ..cfg import CFG
+    r9 = rep.rule('C18.R9', 'an instance is recorded as owned only after '
+                  'this manager created it')
+    mgr = repo.cls(SM, 'WBEMSubscriptionManager')
+    for fn in ('_create_destination', '_create_filter',
+               '_create_subscription'):
+        f = mgr.methods.get(fn)
+        if f is None:
+            raise AnalysisError('WBEMSubscriptionManager.%s vanished' % fn)
+        cfg = CFG(f.node)
+        creates = set()
+        appends = []
+        for st in cfg.nodes:
+            if not isinstance(st, ast.stmt) or isinstance(
+                    st, (ast.If, ast.For, ast.While, ast.Try, ast.With)):
+                continue
+            for c in ast.walk(st):
+                if not isinstance(c, ast.Call):
+                    continue
+                d = dotted(c.func) or ''
+                if d.endswith('.CreateInstance'):
+                    creates.add(st)
+                if isinstance(c.func, ast.Attribute) and \
+                        c.func.attr in ('append', 'insert', 'extend') and \
+                        '_owned_' in norm(c.func.value):
+                    appends.append(st)
+        if not creates or not appends:
+            raise AnalysisError('%s: CreateInstance / owned-list update not '
+                                'found' % fn)
+        for w in appends:
+            r9.sites += 1
+            r9.functions.add(f.fq)
+            seen = {cfg.ENTRY}
+            work = [cfg.ENTRY]
+            while work:
+                a = work.pop()
+                for b in cfg.succ[a]:
+                    if a in creates and cfg.label.get((a, b)) != {'exc'}:
+                        continue        # normal return of CreateInstance
+                    if b not in seen:
+                        seen.add(b)
+                        work.append(b)
+            ok = w not in seen
+            r9.ob(ok, '%s|%s' % (fn, norm(w, 60)))
+            if not ok:
+                rep.finding(r9, f.qualname, norm(w, 70), 'adopted', SM,
+                            w.lineno,
+                            'the owned list is extended on a path on which '
+                            'CreateInstance has not returned (e.g. its '
+                            'CIM_ERR_ALREADY_EXISTS is swallowed): an '
+                            'instance that already exists in the server - '
+                            'permanent, or owned by another manager - is '
+                            'adopted as owned and later deleted by '
+                            'remove_server() / context manager exit')
